@@ -43,6 +43,11 @@ func init() {
 		"fmt.Sprintf":          noop("fmt.Sprintf yields an opaque string"),
 		"time.Now":             noop("time.Now / UnixNano yield an arbitrary integer (seed of the random source)"),
 		"(time.Time).UnixNano": noop("time.Now / UnixNano yield an arbitrary integer (seed of the random source)"),
+		"time.Since":           noop("time.Since / time.Until / Time.Sub yield an arbitrary duration (nothing is assumed about elapsed time)"),
+		"time.Until":           noop("time.Since / time.Until / Time.Sub yield an arbitrary duration (nothing is assumed about elapsed time)"),
+		"(time.Time).Sub":      noop("time.Since / time.Until / Time.Sub yield an arbitrary duration (nothing is assumed about elapsed time)"),
+		"errors.Is":            noop("errors.Is / errors.As yield an arbitrary boolean (the classification of an error value is not modelled)"),
+		"errors.As":            noop("errors.Is / errors.As yield an arbitrary boolean (the classification of an error value is not modelled)"),
 		"math/rand.NewSource":  noop("math/rand.NewSource / rand.New yield an opaque source of random numbers"),
 		"math/rand.New": {run: func(x *Exec, st *State, fr *Frame, ce *ast.CallExpr, recv Term, args []Term, k func(*State, []Term)) {
 			x.trust("math/rand.NewSource / rand.New yield an opaque, non-nil source of random numbers")
@@ -73,6 +78,9 @@ func init() {
 			s2.assume(tNot(tEq(tm, nullRef)))
 			am := x.heapMap(s2, "TimerArmed", "Int")
 			s2.maps["TimerArmed"] = tStore(am, tm, x.ghostInt(s2, "actions"))
+			if len(args) == 1 && args[0].Sort == "Int" {
+				s2.maps["TimerDur"] = tStore(x.heapMap(s2, "TimerDur", "Int"), tm, args[0])
+			}
 			tm.Ty = x.info.TypeOf(ce)
 			k(s2, []Term{tm})
 		}},
@@ -83,6 +91,9 @@ func init() {
 			s2.assume(tNot(tEq(tm, nullRef)))
 			am := x.heapMap(s2, "TimerArmed", "Int")
 			s2.maps["TimerArmed"] = tStore(am, tm, x.ghostInt(s2, "actions"))
+			if len(args) == 1 && args[0].Sort == "Int" {
+				s2.maps["TimerDur"] = tStore(x.heapMap(s2, "TimerDur", "Int"), tm, args[0])
+			}
 			tm.Ty = x.info.TypeOf(ce)
 			k(s2, []Term{tm})
 		}},
@@ -90,6 +101,9 @@ func init() {
 			s2 := st.clone()
 			am := x.heapMap(s2, "TimerArmed", "Int")
 			s2.maps["TimerArmed"] = tStore(am, recv, x.ghostInt(s2, "actions"))
+			if len(args) == 1 && args[0].Sort == "Int" {
+				s2.maps["TimerDur"] = tStore(x.heapMap(s2, "TimerDur", "Int"), recv, args[0])
+			}
 			r := x.d.fresh("wasActive", "Bool")
 			k(s2, []Term{r})
 		}},
@@ -100,7 +114,12 @@ func init() {
 		"time.Sleep": {run: func(x *Exec, st *State, fr *Frame, ce *ast.CallExpr, recv Term, args []Term, k func(*State, []Term)) {
 			x.trust("time.Sleep(d) is a ghost tick: sleeps += 1 (lower bound on elapsed time only)")
 			s2 := st.clone()
-			s2.ghosts["sleeps"] = tApp("Int", "+", x.ghostInt(st, "sleeps"), tInt(1))
+			one := tInt(1)
+			if x.tickDur.ok() && len(args) == 1 && args[0].Sort == "Int" {
+				// the contract declares the length of a tick: a shorter sleep does not count
+				one = tIte(tApp("Bool", ">=", args[0], x.tickDur), tInt(1), tInt(0))
+			}
+			s2.ghosts["sleeps"] = tApp("Int", "+", x.ghostInt(st, "sleeps"), one)
 			s2.ghosts["iterProgress"] = tTrue
 			k(s2, nil)
 		}},
